@@ -161,6 +161,11 @@ def remove_cand(
         if condense:
             clean_profile = clean_profile.condense_ballots()
 
+        # a ballot that only lists removed candidates is exhausted: return the
+        # zero-weight empty ballot instead of indexing into an empty profile
+        if len(clean_profile.ballots) == 0:
+            return cast(COB, scrubbed_ballots[0])
+
         return cast(COB, clean_profile.ballots[0])
     else:
         clean_profile = None
